@@ -379,7 +379,7 @@ fn raw_idx_vec() -> BoxedStrategy<Vec<RawIdx>> {
             gens::pick(&[Section::Core, Section::ExtraCore, Section::Build]),
             prop_oneof![6 => 0usize..3, 1 => 3usize..6],
             0u8..3,
-            prop_oneof![8 => amount().prop_map(|n| Some(n.to_string())), 2 => Just(None), 1 => gens::pick(&["x", "rc1", "a b", "5x", "-1", "1.5", "é"]).prop_map(|s| Some(s.to_string()))],
+            prop_oneof![8 => amount().prop_map(|n| Some(n.to_string())), 2 => Just(None), 1 => gens::pick(&["x", "rc1", "a b", "5x", "-1", "1.5", "é"]).prop_map(|s| Some(s.to_string())), 1 => gens::pick(&["alpha", "beta", "rc", "post", "dev", "none"]).prop_map(|s| Some(s.to_string()))],
             any::<bool>(),
         )
             .prop_map(|(section, pos, spelling, value, bump)| RawIdx { section, pos, spelling, value: if bump { value } else { Some(value.unwrap_or_else(|| "7".into())) }, bump }),
@@ -392,16 +392,19 @@ fn canon_start() -> BoxedStrategy<Canon> {
     (
         (n(), n(), n()),
         proptest::option::weighted(0.3, (1u64..5)),
-        proptest::option::weighted(0.5, (0u8..3, n())),
+        proptest::option::weighted(0.5, (0u8..3, proptest::option::weighted(0.8, n()))),
         proptest::option::weighted(0.4, n()),
         proptest::option::weighted(0.4, n()),
     )
         .prop_map(|((a, b, c), epoch, pre, post, dev)| Canon {
             core: [a.to_string(), b.to_string(), c.to_string()],
             epoch: epoch.map(|e| e.to_string()),
-            pre: pre.map(|(l, x)| (l, x.to_string())),
-            post: post.map(|x| x.to_string()),
-            dev: dev.map(|x| x.to_string()),
+            // a fifth of the pre-releases are a bare label ("1.0.0-rc"); nothing may follow it: zerv
+            // reads the identifiers after a label without a number as literal text, which is outside
+            // the canonical shape C05/C07 speak about
+            pre: pre.map(|(l, x)| (l, x.map(|x| x.to_string()).unwrap_or_default())),
+            post: if matches!(pre, Some((_, None))) { None } else { post.map(|x| x.to_string()) },
+            dev: if matches!(pre, Some((_, None))) { None } else { dev.map(|x| x.to_string()) },
             build: vec![],
         })
         .boxed()
